@@ -15,6 +15,18 @@ root = os.path.dirname(os.path.dirname(os.path.abspath(__file__)))
 tmpl = open("/tmp/seedout/PROMPT_TEMPLATE.txt").read() if os.path.exists("/tmp/seedout/PROMPT_TEMPLATE.txt") else open(os.path.join(root, "tools/SEED_PROMPT_TEMPLATE.txt")).read()
 
 EMPH = {
+    "7": ("This is the seventh round. Prefer changes of these kinds, which earlier rounds under-used: "
+          "(a) memory aliasing and buffer re-use: a defensive copy dropped or moved, a returned slice that aliases internal state, append() on a shared backing array, "
+          "a pooled/re-used object not reset, a value captured by reference and changed later - visible only when the caller or a later operation re-uses the memory; "
+          "(b) scale-dependent thresholds: a queue/channel/batch capacity, a per-tick or per-call cap on work, a counter that saturates or wraps, a limit summed over the wrong scope - "
+          "correct for small runs, wrong only beyond the threshold; "
+          "(c) restart / re-creation / reconfiguration at run time: an object closed and re-created under the same identity, a sequence number or version that restarts lower, "
+          "a setting changed through its run-time setter after use, state keyed by an identifier that gets re-used; "
+          "(d) faults from the environment: a send/write that fails, a closed face or store, a full queue, a lookup that returns nothing - the error path reports twice, not at all, "
+          "or leaves a half-done update behind; "
+          "(e) a slip in GENERIC code used by many callers (encoding readers/writers, the TLV generator's templates, name/component helpers, priority queue, tries) that only affects one rare "
+          "type, shape, size or segmentation - remember to regenerate generated code if you touch a template; "
+          "(f) two cooperating edits that are each harmless alone (a guard removed in one place because another place 'already checks', a field initialised in one constructor but not the other). "),
     "6": ("This is the sixth round. Prefer changes of these kinds, which earlier rounds under-used: "
           "(a) behaviour under NON-DEFAULT configuration values or option combinations (read the configuration/option structs the code consults: thread counts, "
           "capacities 0/1, lifetimes, table algorithm parameters, MTU, feature flags on/off, local-fields/congestion/reliability options) where the default path stays correct; "
